@@ -155,6 +155,7 @@ func c01Gen() *rapid.Generator[c01Case] {
 			withLongName(t, f)
 		}
 		sp := genSpelling(f.HeadingOK()).Draw(t, "spelling")
+		maybeMixed(t, &sp, len(f))
 		if f.Depth() > 16 && sp.Unit > 3 {
 			sp.Unit = 1 + sp.Unit%3 // keep deep documents small
 		}
